@@ -369,10 +369,15 @@ def write_pad_codewords(buff, version, capacity, length):
     # character position in Micro QR Code versions M1 and M3 symbols shall be
     # represented as 0000.
     write = buff.extend
+    pad_codewords = ((1, 1, 1, 0, 1, 1, 0, 0), (0, 0, 0, 1, 0, 0, 0, 1))
     if version in (consts.VERSION_M1, consts.VERSION_M3):
-        write([0] * (capacity - length))
+        # Padding bits up to the codeword boundary (the last codeword has 4 bits)
+        write([0] * min(-length % 8, capacity - length))
+        for i in range((capacity - len(buff)) // 8):
+            write(pad_codewords[i % 2])
+        # Pad codeword in the final (4 bit) data symbol character position
+        write([0] * (capacity - len(buff)))
     else:
-        pad_codewords = ((1, 1, 1, 0, 1, 1, 0, 0), (0, 0, 0, 1, 0, 0, 0, 1))
         for i in range(capacity // 8 - length // 8):
             write(pad_codewords[i % 2])
 
